@@ -56,6 +56,21 @@ func c17Check(t failer, c *c17Case) (int, int, int) {
 		uni.List(uni.SliceOf(strT), uni.Str("x"), uni.Str("y")),
 		{T: uni.MapOf(strT, intT), Keys: []*uni.Node{uni.Str("a")}, Elems: []*uni.Node{uni.Int(uni.KInt, 1)}},
 	}
+	// arrays built from the container's own elements (the expression evaluates on them as it does
+	// in the container): as they are, behind pointers, and inside interface slots
+	if cd := c.Datum; (cd.T.K.IsList() || cd.T.K == uni.KMap) && len(cd.Elems) > 0 && len(cd.Elems) <= 6 && cd.T.Elem.K != uni.KIface {
+		et := cd.T.Elem
+		ptrs, ifaces := make([]*uni.Node, len(cd.Elems)), make([]*uni.Node, len(cd.Elems))
+		for i, e := range cd.Elems {
+			ptrs[i] = uni.Ptr(e)
+			ifaces[i] = uni.InIface(e)
+		}
+		probes = append(probes,
+			&uni.Node{T: uni.ArrayOf(len(cd.Elems), et), Elems: cd.Elems},
+			&uni.Node{T: uni.ArrayOf(len(cd.Elems), uni.PtrTo(et)), Elems: ptrs},
+			&uni.Node{T: uni.ArrayOf(len(cd.Elems), uni.Iface()), Elems: ifaces},
+			&uni.Node{T: uni.ArrayOf(len(cd.Elems), et), Elems: cd.Elems})
+	}
 	for _, p := range probes {
 		c17Exec(t, c, f, ev, text, p.Interface(), "probe "+p.String())
 	}
